@@ -60,3 +60,41 @@ Definition gres_diag (c : gcase) : nat :=
        end.
 
 Definition gres_ok (c : gcase) : bool := Nat.eqb (gres_diag c) 0.
+
+(* ---- ForestSumVisitor: the walk model of Forest/GraphSum.v against node.priority / packed.priority after lark's
+   real ForestSumVisitor().visit(root) on the pristine forest (cyclic forests included; None = -inf) ---- *)
+From Coq Require Import ZArith.
+From LV Require Import Forest.GraphSum.
+
+Definition rule_tab (tab : list (rule * Z)) (x : rule) : Z :=
+  match find (fun p => rule_eqb' (fst p) x) tab with Some p => snd p | None => 0%Z end.
+
+Definition oz_eqb (a b : option Z) : bool :=
+  match a, b with Some x, Some y => Z.eqb x y | None, None => true | _, _ => false end.
+
+Definition gsumcase : Type :=
+  (list (nlabel nat * family nat) * list (rule * Z) * list (rule * Z) * list Z * nlabel nat
+   * list (nlabel nat * option Z) * list (nlabel nat * family nat * option Z) * bool)%type.
+
+(* 0 = agreement; 1 = a symbol node's priority differs; 2 = a packed node's; 3 = (acyclic, small forests only) the
+   walk's annotation differs from the recursive reading gsv used by C05_optimal_graph_walk *)
+Definition gsum_diag (c : gsumcase) : nat :=
+  let '(fams, rptab, rotab, tptab, root, osym, opk, cmp_gsv) := c in
+  let rp := rule_tab rptab in
+  let ro := rule_tab rotab in
+  let tp := fun (_ x : nat) => nth x tptab 0%Z in
+  let st := sum_walk nat Nat.eqb fams rp ro tp root in
+  if negb (forallb (fun lv : nlabel nat * option Z =>
+                      match look_sym nat Nat.eqb (sv_sym nat st) (fst lv) with
+                      | Some v => oz_eqb v (snd lv) | None => false end) osym) then 1
+  else if negb (forallb (fun lfv : nlabel nat * family nat * option Z =>
+                           match look_pk nat Nat.eqb (sv_pk nat st) (fst (fst lfv)) (snd (fst lfv)) with
+                           | Some v => oz_eqb v (snd lfv) | None => false end) opk) then 2
+  else if (if cmp_gsv     (* a conditional, not andb: vm_compute is strict *)
+           then negb (forallb (fun lv : nlabel nat * option Z =>
+                                 Z.eqb (walk_pr nat Nat.eqb tp st (fst lv))
+                                       (gsv nat Nat.eqb fams rp tp (S (List.length fams)) (fst lv))) osym)
+           else false) then 3
+  else 0.
+
+Definition gsum_ok (c : gsumcase) : bool := Nat.eqb (gsum_diag c) 0.
